@@ -17,7 +17,8 @@ THEOREMS = [# (1) framework: any document type, any operations, any equivalence
             'layerchange_drops_hidden_refuted', 'setchar_alpha_locked_refuted', 'swap_loses_char_refuted',
             # (4) extension: the full document (palette, fonts, SAUCE, modes) and the remaining undo records
             'xeqv_is_equivalence', 'xeqv_observable', 'lift_sound', 'lift_undoable', 'undo_operations_sound_x', 'x_api_sound', 'x_undo_redo_history',
-            'known_setfont_witness', 'known_addfont_witness', 'known_fontslot_witness', 'known_sauce_size_witness',
+            'x_api_sound_everywhere',
+            'setfont_before_fix_refuted', 'addfont_before_fix_refuted', 'fontslot_before_fix_refuted', 'resize_sauce_size_before_fix_refuted',
             'rowcol_exact_roundtrip', 'rowcol_not_invariant']
 SWEEP_LEMMAS = []
 TRUSTED = ['Coq 8.16.1 kernel + vm_compute (model evaluation); no axioms (Print Assumptions: closed)',
@@ -73,11 +74,9 @@ CAT = {1: 'buffer-size', 2: 'modes', 3: 'palette', 4: 'fonts', 5: 'sauce', 6: 'l
 # geometry of the scrolled area); the order-dependent precondition of the row/column class is read off the operation names.
 ROWCOL = {'insrow', 'delrow', 'inscol', 'delcol'}
 SCROLL = {'scrup', 'scrdown'}      # scroll_area_left / right are proved sound (Proofs/ScrollProofs.v): a failure there is a violation
-SETFONT = {'setfont', 'saucefont'}
-RESIZE = {'resize0', 'resize1', 'crop', 'croprect'}
 # records that store whole `lines` vectors / layer lists and put the STORED vectors back on redo (a stale shape)
 SNAPSHOT = {'palmode', 'ice', 'replfont', 'fontslot', 'remfont', 'rotate'}
-F_SCROLL_ONE_ROW, F_SCROLL_ROWS, F_SAUCE, F_ADDFONT, F_SETFONT, F_FONTSLOT = 1, 2, 4, 8, 16, 32
+F_SCROLL_ONE_ROW, F_SCROLL_ROWS = 1, 2
 
 def rowcol_then_snapshot(names):
     """a row/column operation followed (later in the history) by an operation whose record re-imposes stored `lines` vectors"""
@@ -91,10 +90,6 @@ def classify(code, cat, names, doc, facts=0):
     """signature of a failing minimised history; a known signature only when the precondition of that defect holds on it"""
     kind = CODE.get(code, 'code%d' % code)
     ns = set(names)
-    if cat == 'sauce' and ns & RESIZE and facts & F_SAUCE: return 'C08-resize-rewrites-sauce-size'
-    if cat == 'fonts' and ns & SETFONT and facts & F_SETFONT: return 'C08-setfont-records-slot0'
-    if cat == 'fonts' and 'addfont' in ns and facts & F_ADDFONT: return 'C08-addfont-overwrites-slot'
-    if cat == 'fonts' and 'fontslot' in ns and facts & F_FONTSLOT: return 'C08-fontslot-overwrites-slot'
     if cat in ('cell', 'layer-size', '') and rowcol_then_snapshot(names): return 'C08-rowcol-raw-lines'
     if cat in ('cell', '') and ns & SCROLL and facts & F_SCROLL_ONE_ROW: return 'C08-scroll-area-raw-lines'
     return 'C08-%s%s:%s' % (kind, ('/' + cat) if cat else '', '+'.join(sorted(ns)))
